@@ -25,7 +25,7 @@ cNoiseE == <<RI(1), RI(3)>>
 cShapesBig == {[nS |-> 3, nC |-> b, nK |-> c, sens |-> s] : b \in 1..2, c \in 0..1, s \in {<<3>>, <<2, 2>>, <<3, 2>>}}
 cSyms == SymPool
 cSymsCluster == ClusterPool
-cActsEval == {"ModelEval", "ModelEvalNear", "JacEval", "SensEval"}
+cActsEval == {"ModelEval", "ModelEvalNear", "JacEval", "JacEvalNear", "SensEval", "SensEvalNear"}
 cSensors == SensorPool
 cReadings == ReadingPool
 cOpsAll == {"add","sub","mul","div","neg","pow2","pow3","sin","cos","exp","tanh","atan","sqrt1","log1","tan","asinb","acosb","muldt","abs1"}
@@ -48,10 +48,10 @@ cPVec == <<1, 0, -1, 2, 1>>
 cPDiag0 == <<0, 1, 0, 2, 0>>
 cZDeltas == <<RI(1), RI(-2), RQ(1,2), RI(5), RI(-9), RI(40), RI(0), RI(3)>>
 cNoSeq == <<>>
-cActsJac == {"JacEval", "SensEval"}
+cActsJac == {"JacEval", "JacEvalNear", "SensEval", "SensEvalNear"}
 cActsPredict == {"SetEstimate", "Predict"}
 cActsUpdate == {"SetEstimate", "Update"}
-cActsAll == {"ModelEval", "ModelEvalNear", "JacEval", "SensEval", "SetEstimate", "Predict", "Update"}
+cActsAll == {"ModelEval", "JacEval", "SensEval", "SetEstimate", "Predict", "Update"}      \* (the Near pairs belong to the evaluation-only configurations: here they would crowd out the filter steps)
 cActsTransform == {"DefaultEstimate", "TransformRow"}
 cZAbs == <<RI(1), RI(-2), RQ(1,2), RI(3), RI(0), RI(-1), RI(2), RQ(-3,2)>>
 cShapesT == {[nS |-> a, nC |-> b, nK |-> c, sens |-> s] : a \in 1..2, b \in 0..2, c \in 0..1, s \in {<<1>>, <<2>>, <<1, 2>>, <<2, 1>>, <<1, 1, 2>>}}
